@@ -98,6 +98,39 @@ type c10Scenario struct {
 
 var c10SharedQ, c10SharedQ2 *rego.PreparedEvalQuery
 
+// c10Pe / c10Pf: profiles WITHOUT a prefixes section (they use the built-in AMF prefixes only)
+const c10Pe = `profile: c10 e
+violation:
+  - v0
+validations:
+  v0:
+    message: name and datatype
+    targetClass: shapes.ScalarShape
+    propertyConstraints:
+      core.name:
+        minCount: 1
+      shacl.datatype:
+        minCount: 1
+      shapes.range / core.name:
+        maxCount: 1
+`
+
+const c10Pf = `profile: c10 f
+warning:
+  - w0
+validations:
+  w0:
+    message: endpoints
+    targetClass: apiContract.EndPoint
+    propertyConstraints:
+      apiContract.path:
+        pattern: ^/
+      apiContract.supportedOperation / apiContract.method:
+        in: [get, post]
+      doc.extends | core.description:
+        maxCount: 2
+`
+
 // c10Pd: every node violates (r must be "zz"), so every validation produces results whatever the data
 const c10Pd = `profile: c10 d
 prefixes:
@@ -158,6 +191,7 @@ func c10Scenarios() map[string]c10Scenario {
 			func() CallRes {
 				return ValidateCompiledConf(c10SharedQ2, d1, Epoch2000, config.ReportConfiguration{ReportSchemaIri: "urn:c", LexicalSchemaIri: "urn:lc"}, nil)
 			})},
+		"S8": {2, []string{"Validate(Pe,d1) [no prefixes section]", "Validate(Pf,d2) [no prefixes section]"}, mk(val(c10Pe, d1), val(c10Pf, d2))},
 		"S5": {2, []string{"CompileProfile(Pa)", "Validate(Pc,d2)"}, mk(comp(c10Pa), val(c10Pc, d2))},
 	}
 }
@@ -175,9 +209,9 @@ func c10Gen(tier string, emit func(c10Case)) {
 		s string
 		b int
 	}
-	plan := []sb{{"S1", 2}, {"S1r", 2}, {"S4", 2}, {"S2", 1}, {"S3", 2}, {"S5", 1}, {"S6", 2}, {"S7", 2}}
+	plan := []sb{{"S1", 2}, {"S1r", 2}, {"S4", 2}, {"S2", 1}, {"S3", 2}, {"S5", 1}, {"S6", 2}, {"S7", 2}, {"S8", 2}}
 	if tier == "thorough" {
-		plan = []sb{{"S1", 3}, {"S1r", 3}, {"S4", 3}, {"S2", 2}, {"S3", 3}, {"S5", 3}, {"S6", 3}, {"S7", 3}}
+		plan = []sb{{"S1", 3}, {"S1r", 3}, {"S4", 3}, {"S2", 2}, {"S3", 3}, {"S5", 3}, {"S6", 3}, {"S7", 3}, {"S8", 3}}
 	}
 	for _, p := range plan {
 		parts := 16
@@ -217,6 +251,9 @@ func c10Run(c *Ctx, cs c10Case) {
 			sc.mk(res)[i]()
 			if serial[i].Report == "" && serial[i].Err == nil {
 				serial[i] = res[i]
+			} else if res[i].Report != serial[i].Report || (res[i].Err == nil) != (serial[i].Err == nil) {
+				// a call made ALONE after earlier concurrent executions no longer returns what it returned at first
+				c.Violate("C10 a call run alone returns a different result after concurrent executions", fmt.Sprintf("scenario %s thread body %d (%s)\n%s", cs.Scenario, i, sc.descr[i], firstDiff(serial[i].Report, res[i].Report)), nil)
 			}
 			if res[i].Panic != nil {
 				panic("harness: serial run panics: " + res[i].ErrString())
